@@ -1,5 +1,5 @@
 SPECIFICATION Spec
-CONSTANTS Configs <- MCConfigs OptNames <- MCOptNames SecNames <- MCSecNames Values <- MCValues
+CONSTANTS Configs <- MCConfigsQ OptNames <- MCOptNames SecNames <- MCSecNames Values <- MCValues
           Decos <- MCDecosP MaxNodes = 2 MaxDepth = 2
 VIEW View
 INVARIANTS TypeOK
